@@ -144,6 +144,31 @@ Proof.
     rewrite Hl in Hm'. injection Hm' as ->. rewrite String.eqb_refl in Hm. discriminate.
 Qed.
 
+Lemma provider_router_auth_iff verify v t cl now tok id :
+  provider_router_auth verify v t cl now tok = Ok id <->
+  exists c, verify_assertion verify v t now tok = Ok c /\ id = c_iss c
+            /\ exists m, lookup_client cl id = Some m.
+Proof.
+  unfold provider_router_auth. destruct (client_jwt_auth verify v t now tok) as [i|x] eqn:Hc.
+  - apply client_jwt_auth_iff in Hc. destruct Hc as (c & Hc & ->).
+    destruct (lookup_client cl (c_iss c)) as [m|] eqn:Hl.
+    + split; [intro H; injection H as <-; exists c; repeat split; try assumption; now exists m|].
+      intros (c' & H & -> & _). rewrite Hc in H. now injection H as <-.
+    + split; [discriminate|]. intros (c' & H & -> & m & Hm). rewrite Hc in H. injection H as <-. congruence.
+  - split; [discriminate|]. intros (c' & H & -> & _).
+    assert (Hx : client_jwt_auth verify v t now tok = Ok (c_iss c')) by (apply client_jwt_auth_iff; now exists c').
+    congruence.
+Qed.
+
+(* one verifier serving a sequence: step n is decided by step n alone *)
+Lemma sequence_independent verify t pre s post :
+  nth (List.length pre) (verify_sequence verify t (pre ++ s :: post)) (Err EOther)
+  = verify_assertion verify (fst (fst s)) t (snd (fst s)) (snd s).
+Proof.
+  unfold verify_sequence. rewrite map_app. rewrite app_nth2; rewrite map_length; [|apply Nat.le_refl].
+  rewrite Nat.sub_diag. reflexivity.
+Qed.
+
 (* soundness, written out *)
 Lemma assertion_sound verify v t now tok c :
   verify_assertion verify v t now tok = Ok c ->
@@ -171,13 +196,15 @@ Qed.
 
 Lemma assertion_identity verify v t cl now tok id :
   (client_jwt_auth verify v t now tok = Ok id \/ jwt_profile_grant verify v t now tok = Ok id
-   \/ authorize_private_jwt_key verify v t cl now tok = Ok id) ->
+   \/ authorize_private_jwt_key verify v t cl now tok = Ok id
+   \/ provider_router_auth verify v t cl now tok = Ok id) ->
   exists c, verify_assertion verify v t now tok = Ok c /\ id = c_iss c.
 Proof.
-  intros [H|[H|H]].
+  intros [H|[H|[H|H]]].
   - now apply client_jwt_auth_iff in H.
   - now apply jwt_profile_grant_iff in H.
   - apply authorize_private_jwt_key_iff in H. destruct H as (c & H1 & H2 & _). now exists c.
+  - apply provider_router_auth_iff in H. destruct H as (c & H1 & H2 & _). now exists c.
 Qed.
 
 Lemma client_auth verify v t cl now tok id :
@@ -388,7 +415,8 @@ Qed.
 Definition entry_extra (e : entry) (cl : clienttable) (c : claims) (sub : string) : Prop :=
   match e with
   | EVerify => sub = c_sub c
-  | EPrivateKey => sub = "" /\ lookup_client cl (c_iss c) = Some private_key_jwt
+  | EPrivateKey | ERouter true _ => sub = "" /\ lookup_client cl (c_iss c) = Some private_key_jwt
+  | ERouter false _ => sub = "" /\ exists m, lookup_client cl (c_iss c) = Some m
   | _ => sub = ""
   end.
 
@@ -423,7 +451,31 @@ Proof.
     + split; [discriminate|]. intros (c' & H & -> & _).
       assert (Hx : jwt_profile_grant sym_verify v t now tok = Ok (c_iss c')) by (apply jwt_profile_grant_iff; now exists c').
       congruence.
+  - destruct legacy.
+    + destruct (authorize_private_jwt_key sym_verify v t cl now tok) as [i|x] eqn:Hc.
+      * apply authorize_private_jwt_key_iff in Hc. destruct Hc as (c & Hc & -> & Hm).
+        split; [intro H; injection H as <- <-; now exists c|].
+        intros (c' & H & -> & -> & _). rewrite Hc in H. now injection H as <-.
+      * split; [discriminate|]. intros (c' & H & -> & _ & Hm).
+        assert (Hx : authorize_private_jwt_key sym_verify v t cl now tok = Ok (c_iss c'))
+          by (apply authorize_private_jwt_key_iff; now exists c').
+        congruence.
+    + destruct (provider_router_auth sym_verify v t cl now tok) as [i|x] eqn:Hc.
+      * apply provider_router_auth_iff in Hc. destruct Hc as (c & Hc & -> & Hm).
+        split; [intro H; injection H as <- <-; now exists c|].
+        intros (c' & H & -> & -> & _). rewrite Hc in H. now injection H as <-.
+      * split; [discriminate|]. intros (c' & H & -> & _ & Hm).
+        assert (Hx : provider_router_auth sym_verify v t cl now tok = Ok (c_iss c'))
+          by (apply provider_router_auth_iff; now exists c').
+        congruence.
 Qed.
+
+Definition entry_need (e : entry) (cl : clienttable) (c : claims) : Prop :=
+  match e with
+  | EPrivateKey | ERouter true _ => lookup_client cl (c_iss c) = Some private_key_jwt
+  | ERouter false _ => exists m, lookup_client cl (c_iss c) = Some m
+  | _ => True
+  end.
 
 Lemma is_pkjwt_iff cl id : is_private_key_jwt cl id = true <-> lookup_client cl id = Some private_key_jwt.
 Proof.
@@ -467,7 +519,7 @@ Lemma must_accept_model e v t cl t0 t1 d c :
   t0 <= t1 -> string_in (sd_alg d) accepted_algs = true ->
   must_accept e v t cl t0 t1 d c = true ->
   verify_assertion sym_verify v t t0 (TJws d c) = Ok c
-  /\ (e = EPrivateKey -> lookup_client cl (c_iss c) = Some private_key_jwt).
+  /\ entry_need e cl c.
 Proof.
   intros Ht Hal H. unfold must_accept in H.
   repeat (apply andb_true_iff in H; destruct H as [H ?]).
@@ -485,7 +537,11 @@ Proof.
     + split; [intros _; now apply String.eqb_eq|].
       unfold sig_ok. split; [assumption|]. split; [now apply string_in_In|].
       now apply signed_by_named_iff.
-  - intros ->. now apply is_pkjwt_iff.
+  - match goal with He : match e with EVerify => _ | _ => _ end = true |- _ => rename He into Hent end.
+    destruct e as [| | | |[|] cid]; cbn [entry_need]; try exact I.
+    + now apply is_pkjwt_iff.
+    + now apply is_pkjwt_iff.
+    + destruct (lookup_client cl (c_iss c)) as [m|]; [now exists m | discriminate].
 Qed.
 
 Lemma spec_assert_model e helper v t cl t0 t1 tok :
@@ -498,8 +554,10 @@ Proof.
   - apply model_assert_ok_iff in Hm. destruct Hm as (c & Hv & -> & Hx).
     destruct (proj1 (verify_assertion_iff _ _ _ _ _ _) Hv) as (d & -> & _).
     rewrite (assert_conditions_model v t t0 t1 d c Ht Hv), String.eqb_refl. cbn [andb].
-    destruct e; cbn [entry_extra] in Hx.
+    destruct e as [| | | |[|] cid]; cbn [entry_extra] in Hx.
     + subst sub. apply String.eqb_refl.
+    + reflexivity.
+    + destruct Hx as [_ Hx]. now apply is_pkjwt_iff.
     + reflexivity.
     + destruct Hx as [_ Hx]. now apply is_pkjwt_iff.
     + reflexivity.
@@ -507,10 +565,12 @@ Proof.
     destruct (must_accept e v t cl t0 t1 d c) eqn:Hma; [|reflexivity]. exfalso.
     destruct (must_accept_model e v t cl t0 t1 d c Ht (Hg eq_refl d c eq_refl) Hma) as [Hv Hp].
     assert (Hok : exists sub, model_assert e v t cl t0 (TJws d c) = Ok (c_iss c, sub)).
-    { destruct e.
+    { destruct e as [| | | |[|] cid]; cbn [entry_need] in Hp.
       - exists (c_sub c). apply model_assert_ok_iff. exists c. now repeat split.
       - exists "". apply model_assert_ok_iff. exists c. now repeat split.
-      - exists "". apply model_assert_ok_iff. exists c. repeat split; try assumption; try reflexivity. now apply Hp.
+      - exists "". apply model_assert_ok_iff. exists c. now repeat split.
+      - exists "". apply model_assert_ok_iff. exists c. now repeat split.
+      - exists "". apply model_assert_ok_iff. exists c. now repeat split.
       - exists "". apply model_assert_ok_iff. exists c. now repeat split. }
     destruct Hok as (sub & Hok). congruence.
 Qed.
